@@ -189,6 +189,35 @@ ARRAY_META_OWNERS = set("flags".split())
 HANDLE_PARAMS = set("ax fig axes".split())
 
 PYPLOT_GLOBAL = 0            # GlobalId of pyplot's state machine
+
+# --- special methods of a persim class that act on its SUBCLASSES and their instances without the subclass naming them
+#     (audit 4, IR-1): they run when a subclass is created (`__init_subclass__`, `__set_name__` of a descriptor bound in the
+#     body, `__prepare__` / `__mro_entries__` / `__class_getitem__`), when it is instantiated (`__new__`) or whenever an
+#     attribute of an instance is looked up / stored (`__getattribute__` & co.), so they can replace what `Sub.method` is.  A
+#     persim BASE class that defines one is an unreviewed class decorator on every subclass: the subclass's entry points are
+#     refused unless policy.json `base_hooks_reviewed` holds the hook's text word for word.
+CLASS_HOOK_METHODS = set("""
+__init_subclass__ __class_getitem__ __prepare__ __mro_entries__ __set_name__ __new__
+__getattribute__ __getattr__ __setattr__ __delattr__ __get__ __set__ __delete__
+__instancecheck__ __subclasscheck__ __subclasshook__
+""".split())
+
+# the ones that act on the instances of the class that DEFINES them as well (what `obj.method` is, what `Class(...)` returns): a
+# persim class that defines one is refused itself unless the text is reviewed (its definition is an entry point of its own, but
+# the obligations of the methods it rewires would not see it)
+CLASS_SELF_HOOKS = set("__new__ __getattribute__ __getattr__ __setattr__ __delattr__".split())
+
+# --- names under persim/ the translator does NOT look into, with the reason (printed into Generated/ApiIR.lean `unparsedAllowed`;
+#     the other non-`*.py` files it finds are printed as `unparsedFiles`).
+#     Every `*.py` file is parsed (also `_version.py`, audit 4 IR-2); a file that is not listed here and is not `*.py` is a
+#     translation problem when Python could import it (IMPORTABLE_SUFFIXES), and is listed otherwise.
+UNPARSED_ALLOWED = {
+    "__pycache__": "byte-code caches of the parsed `*.py` files, written by the interpreter (not tracked, not source)",
+}
+IMPORTABLE_SUFFIXES = (".pyc", ".pyo", ".pyw", ".pyd", ".so", ".dll", ".dylib", ".pth", ".pyx", ".zip", ".egg")
+# `persim/_version.py` is run by `persim/__init__.py` on every import and has no entry point: it must be this one statement
+VERSION_MODULE = "_version"
+VERSION_STATEMENT = '__version__ = "<string literal>"'
 EXC_SUFFIXES = ("Error", "Exception", "Warning", "StopIteration")
 
 TABLE_DOC = [
@@ -265,7 +294,22 @@ TABLE_DOC = [
      "decorator other than property / <prop>.setter / staticmethod / abstractmethod, a class decorator not listed word for word in "
      "policy.json `decorators_reviewed`, a decorated nested def: the translator REFUSES every entry point that runs code of that module / "
      "class / function (TranslatorError: deliberately failing obligation). `__init__.py` files are modules like any other: their `def`s "
-     "are entry points, their problems refuse every entry point of the package"),
+     "are entry points, their problems refuse every entry point of the package. `persim/_version.py` is parsed like every other module and "
+     "must consist of the single statement `" + VERSION_STATEMENT + "`: anything else there is code of the package init (every entry point "
+     "refused, and listed in `translationProblems`). Files under persim/ that are not parsed: only " + " ".join(sorted(UNPARSED_ALLOWED)) +
+     " (printed as `unparsedAllowed`; other non-source files found are printed as `unparsedFiles`); any other file Python could import (" + " ".join(IMPORTABLE_SUFFIXES) + ") is a translation problem. "
+     "A module-level statement that ASSIGNS an attribute of another persim module / class / function (`_b.bottleneck = _w`, "
+     "`setattr(persim.bottleneck, 'bottleneck', _w)`, `sys.modules['persim.bottleneck'].bottleneck = _w`, `f.__code__ = …`) refuses the "
+     "entry points of the file that holds it AND the assigned target (the function, the class, or — for any other attribute — every entry "
+     "point of the target module); a target that cannot be resolved is said so in the problem's text"),
+    ("class lines, base classes", "the `class` line of EVERY persim class (name, bases as written, keywords) and what each base resolves to "
+     "(`sklearn.base.TransformerMixin`, `persim.landscapes.base.PersLandscape`) must be, word for word, the entry of policy.json "
+     "`class_lines`; a class that is not listed, another base list, the same base name imported from elsewhere: every entry point of the "
+     "class is refused. The problems of a persim base class (class keywords, class-body code, decorators …) are problems of every "
+     "subclass. A persim base class that defines one of " + " ".join(sorted(CLASS_HOOK_METHODS)) + " (as a method or as a class-level "
+     "binding) acts on its subclasses like a class decorator: the subclass is refused unless policy.json `base_hooks_reviewed` holds "
+     "the text of that definition word for word (audit 4, IR-1); " + " ".join(sorted(CLASS_SELF_HOOKS)) + " act on the defining class's "
+     "own instances too: the defining class is refused as well, under the same condition"),
     ("private classes, context managers, default values", "the special methods of a PUBLIC class are entry points; an instance of a "
      "PRIVATE class that defines special methods other than __init__ is an unknown call on what it was built from (they run implicitly: "
      "with / operators / len / iteration / subscripts / repr). `with cm as x`: x is cm or what the `__enter__` of a persim class returns; "
